@@ -48,6 +48,8 @@ pub struct Inner {
     pub contract: Contract,
     /// every call (kind, offset, length / new length), when enabled: for Backend.tla
     pub calllog: Option<Vec<(&'static str, u64, u64)>>,
+    /// close() reports an error (it still counts as the one close the contract allows)
+    pub fail_close: bool,
 }
 
 pub struct Store {
@@ -73,6 +75,7 @@ impl Store {
                 read_only: false,
                 contract: Contract::default(),
                 calllog: None,
+                fail_close: false,
             }),
         })
     }
@@ -132,6 +135,10 @@ impl Store {
     /// or the open failed)
     pub fn mark_done(&self) {
         self.inner.lock().unwrap().note("bdone", 0, 0);
+    }
+
+    pub fn set_fail_close(&self, on: bool) {
+        self.inner.lock().unwrap().fail_close = on;
     }
 
     pub fn syncs(&self) -> u64 {
@@ -272,6 +279,9 @@ impl redb::StorageBackend for MemBackend {
         g.contract.close_calls += 1;
         if g.recording {
             g.log.push(Op::Close);
+        }
+        if g.fail_close {
+            return Err(io::Error::other("injected close failure"));
         }
         Ok(())
     }
